@@ -1515,12 +1515,14 @@ package rockredis
 // absent set is a miss (partial contracts: these assertions only) ----
 //@ property C08 C09
 //@ func (db *RockDB) zRangeBytes(ts int64, preCheckCnt bool, key []byte, minKey []byte, maxKey []byte, offset int, count int, reverse bool) ([]common.ScorePair, error)
-//@   opt only=ASSERT,POST
+//@   opt only=ASSERT,POST,INV-ENTRY
 //@   opt autoloops
 //@   callassert NewDBRangeLimitIterator sameSlice(arg1, minKey) && sameSlice(arg2, maxKey) && arg3 == common.RangeClose && arg4 == offset && arg5 == count && (arg6 <==> (reverse && !(offset == 0 && count < 0))) && offset >= 0 && count <= MAX_BATCH_NUM
 //@   ensures offset < 0 && result1 == nil ==> len(result0) == 0
 //@   ensures count > MAX_BATCH_NUM && offset >= 0 ==> result1 != nil
 //@   modifies ghost(collexpired, db), ghost(collabsent, db), ghost(curexists, db), ghost(curhead, db), ghost(curlen, db), ghost(curtk, db)
+//@ loop 2
+//@   invariant reverse && offset == 0 && count < 0
 //@ func (db *RockDB) ZScore(key []byte, member []byte) (float64, error)
 //@   opt only=POST
 //@   ensures ghost(collexpired, db) == 1 || ghost(collabsent, db) == 1 ==> result1 != nil
